@@ -435,6 +435,8 @@ func main() {
 		explainMain(os.Args[2])
 	case "measure":
 		measureMain(os.Args[2])
+	case "c03fonts": // for C03: write every built case and record what an independent reader sees
+		c03FontsMain(os.Args[2], os.Args[3])
 	default:
 		vio.Fatal("unknown sub-command " + strings.Join(os.Args[1:], " "))
 	}
